@@ -95,6 +95,7 @@ type End struct {
 
 	HoldDeliver bool // fault: nothing is delivered to this end while set
 	HoldWrites  bool // fault: writes issued by this end are not granted while set
+	KeepHold    bool // the hold is permanent: drains do not lift it
 	BytesOut    int
 	BytesIn     int
 	WritesOut   int
